@@ -121,6 +121,11 @@ def _steps(rng, clock, failing, fail_mode, open_steps=0):
         steps.append({"description": _text(rng) or "step", "start": start, "end": None, "logs": logs})
         if i < n - open_steps:
             steps[-1]["end"] = clock.tick()
+            if not failing and rng.random() < 0.12:
+                # began and ended within the same millisecond (saved reports round to the millisecond): finished, zero duration
+                steps[-1]["end"] = start
+                for l in logs:
+                    l[-1] = start
     if failing:
         kinds = {"error": ["error"], "check": ["check"], "both": ["error", "check"]}[fail_mode]
         for kind in kinds:
